@@ -24,6 +24,8 @@ import Rooc.Proofs.ComposeWF
 import Rooc.Proofs.ComposeSolver
 import Rooc.Proofs.ComposeSolverExamples
 import Rooc.Proofs.ComposeReturn
+import Rooc.Proofs.ComposeVarFree
+import Rooc.Proofs.ComposeVarFreeExamples
 namespace Rooc.Props.C03
 open Rooc Rooc.Sem Rooc.Ref Rooc.Exp
 
@@ -1179,6 +1181,42 @@ theorem c03_solve_using_logic_partial {solver : LinModel (Ext K) → MlpOutcome 
   · obtain ⟨lm, hc, hone⟩ := pipeline_solver hp
     exact (c03_default_solver_logic_partial ht hc hm hsh hok ht1 ha (hspec lm hc)).2 hone
 
+/-- **no assumption at all on the variable-free branch**: when the compiled model has no domain entry (a source without
+used variables — constants only), `auto_solver` decides it itself and `SolverSpec` is a THEOREM (`Compose.
+solverSpec_varFree`, `ComposeWF.varFree_of_compile` from C08), whatever the external solver would answer.  So for such
+sources the pipeline's answer IS the reference's verdict, unconditionally. -/
+theorem c03_solve_using_varfree_logic_partial {solver : LinModel (Ext K) → MlpOutcome (Ext K)}
+    {m : Model (Ext K)} {t : K} (ht : 0 ≤ t) {maxSteps : Nat} {lm : LinModel (Ext K)}
+    (h : Compile.linearize m (.fin t) maxSteps = .ok lm) (hdom : lm.domain = [])
+    (hm : LogicModel m m.domain) (hsh : AssertShape m) (hok : DeclOK m.domain)
+    (ht1 : t < 1 ∨ NoIntegerVars m.domain)
+    {asg : List (List (String × K))} (ha : assignments m.domain = some asg) :
+    (∀ sol, oneShot solver m t maxSteps = .ok sol → sol.status = .optimal →
+      srcFeasible m (assignmentOf sol) = true ∧
+      (m.optType ≠ .satisfy → ∃ v w, refSolve m = .optimal v w ∧ sol.value = .fin v) ∧
+      (m.optType = .satisfy → ∃ w, refSolve m = .feasibleAny w)) ∧
+    (oneShot solver m t maxSteps = .err "Infeasible" →
+      refSolve m = .infeasible ∧ ∀ ρ : String → K, srcFeasible m ρ = false) :=
+  c03_default_solver_logic_partial ht h hm hsh hok ht1 ha
+    (solverSpec_varFree (ComposeWF.varFree_of_compile h hok.nodup (ComposeWF.finiteLits_of_logicModel hm) hdom) _)
+
+/-- non-vacuity (`K = ℚ`, every tolerance, every step limit, EVERY external solver): `min 3`.  The pipeline returns the
+variable-free `lmConst`, rooc answers `value = 3` without consulting the solver, and the reference agrees. -/
+example (solver : LinModel (Ext ℚ) → MlpOutcome (Ext ℚ)) (t : ℚ) (ht : 0 ≤ t) (n : Nat) :
+    oneShot solver (exConst : Model (Ext ℚ)) t n = .ok (SolverWrap.lpSolutionNew [] (.fin 3) []) ∧
+    ∃ w, refSolve (exConst : Model (Ext ℚ)) = .optimal 3 w := by
+  have hc := exConst_compile (K := ℚ) (.fin t) n
+  have hone : oneShot solver (exConst : Model (Ext ℚ)) t n = .ok (SolverWrap.lpSolutionNew [] (.fin 3) []) := by
+    rw [oneShot_ok hc]; simp [SolverWrap.wrapAuto, lmConst]
+  obtain ⟨hsol, _⟩ := c03_solve_using_varfree_logic_partial (solver := solver) ht hc rfl
+    (LogicModel.ofFragModel exConst_frag) (assertShape_of_fragModel exConst_frag) exConst_declOK
+    (Or.inr (fun d hd => by simp [exConst] at hd)) (asg := [[]]) (by simp [exConst, assignments])
+  obtain ⟨_, hv, _⟩ := hsol _ hone rfl
+  obtain ⟨v, w, hr, hval⟩ := hv (by simp [exConst])
+  have : v = 3 := by simpa [SolverWrap.lpSolutionNew] using hval.symm
+  subst this
+  exact ⟨hone, w, hr⟩
+
 /-! ### any answer honouring the contract, judged against the SOURCE semantics (no enumerability needed), and the
 fully proved instance: `Compile.linearize` ∘ `to_standard_form` ∘ `into_tableau` ∘ step loop ∘ `as_lp_solution` -/
 
@@ -1209,14 +1247,14 @@ Source model under the contract, compiled by the whole pipeline; `to_standard_fo
 stops `Finished`.  Then the `LpSolution` handed back (`as_lp_solution` on `variables_values`, value `optimal_value`), read
 by variable name, satisfies the SOURCE model, reports the source objective at that assignment, and nothing satisfying the
 source is strictly better.  No assumption about a solver is left; what is left about computed data is decidable:
-`DomainFormat lm` (see `ComposeWF.lean`), `plainName` for the variables of `lm` (the known prefix-collision finding of
-`as_lp_solution`), `StartFacts`. -/
+`DomainFormat lm` (see `ComposeWF.lean`), `plainName` for the NON-FREE variables of `lm` (the known prefix-collision
+finding of `as_lp_solution`; free variables may carry any name), `StartFacts`. -/
 theorem c03_slow_simplex_returned_solution_partial {m : Model (Ext K)} {t : K} (ht : 0 ≤ t) {maxSteps : Nat}
     {lm : LinModel (Ext K)} (h : Compile.linearize m (.fin t) maxSteps = .ok lm)
     (hm : LogicModel m m.domain) (hsh : AssertShape m) (hok : DeclOK m.domain)
     (ht1 : t < 1 ∨ NoIntegerVars m.domain)
     {s : StdModel (Ext K)} (hs : Standardize.standardize lm = .ok s) (hfmt : ComposeWF.DomainFormat lm)
-    (hpl : ∀ v ∈ lm.vars, ComposeNames.plain v = true)
+    (hpl : ∀ v ∈ StdLayout.keep (StdSpec.flags lm) lm.vars, ComposeNames.plain v = true)
     {tol : K} (htol : 0 < tol) (stallExtra phase1Limit : Nat)
     (hfacts : ComposeSimplex.StartFacts tol stallExtra phase1Limit (ComposeSimplex.stdK s))
     {T : Tab K} (hT : @Tableau.intoTableau K (exactArith K) tol stallExtra phase1Limit (ComposeSimplex.stdK s) = .ok T)
@@ -1252,7 +1290,8 @@ example (t : ℚ) (ht : 0 ≤ t) :
   have hpl : ∀ v ∈ exMax.vars, ComposeNames.plain v = true := by
     intro v hv; simp only [exMax, List.mem_singleton] at hv; subst hv; decide
   have h := c03_slow_simplex_returned_solution_partial ht (exSrc_compile (.fin t)) (LogicModel.ofFragModel exSrc_frag)
-    (assertShape_of_fragModel exSrc_frag) exSrc_declOK (Or.inr exSrc_noInt) exMax_std hfmt hpl
+    (assertShape_of_fragModel exSrc_frag) exSrc_declOK (Or.inr exSrc_noInt) exMax_std hfmt
+    (fun v hv => hpl v ((ComposeNames.keep_sublist _ _).subset hv))
     (tol := (1/100000 : ℚ)) (by norm_num) 1 10 exMax_startFacts exMax_intoTableau 10 [] exTM'_solve.1
   rw [exTM'_solve.2] at h
   obtain ⟨hs, v, hv, _, hbest⟩ := h
